@@ -296,6 +296,32 @@ func MW[M any](m M, loc, site string) {
 	}
 }
 
+// SA is wrapped around the first operand of append: with spare capacity the
+// appended element is stored into the array s points into (a write to that slot,
+// whichever variable holds the header); without, every element is copied (reads).
+func SA[S ~[]E, E any](s S, loc, site string) S {
+	if cur != nil && cap(s) > 0 {
+		if len(s) < cap(s) {
+			access(unsafe.Pointer(&s[:len(s)+1][len(s)]), 3, loc, site, true, false)
+		} else {
+			for i := range s {
+				access(unsafe.Pointer(&s[i]), 3, loc, site, false, false)
+			}
+		}
+	}
+	return s
+}
+
+// SR is wrapped around the operand of a value range over a slice: every element is read.
+func SR[S ~[]E, E any](s S, loc, site string) S {
+	if cur != nil {
+		for i := range s {
+			access(unsafe.Pointer(&s[i]), 3, loc, site, false, false)
+		}
+	}
+	return s
+}
+
 func siteFunc(site string) string {
 	for i := len(site) - 1; i >= 0; i-- {
 		if site[i] == '@' {
